@@ -446,6 +446,42 @@ fn main() {
             }
             report("case", "d6", "PPSpline(k=4, t=[0,0,0,0,2,5,5,5,5]).csolve with a NaN site / a NaN datum", &obs.join("; "), "a Result (no abort)", all_ok);
         }
+        // finding D8 (property C16, which this technique does not claim: found by the load-time reconstruction probe of C20):
+        // a double that needs 17 significant digits must survive to_json -> from_json bit for bit
+        "d8" => {
+            use rateslib::dual::Number;
+            use rateslib::fx::rates::{Ccy, FXRate, FXRates};
+            use rateslib::json::JSON;
+            let (eur, usd) = (Ccy::try_new("eur").unwrap(), Ccy::try_new("usd").unwrap());
+            // the quote of a one-quote market after to_json -> from_json, as bits (None: error or abort)
+            let trip = |x: f64| -> Option<u64> {
+                let fxr = FXRates::try_new(vec![FXRate::try_new("eur", "usd", Number::F64(x), None).unwrap()], None).ok()?;
+                let doc = fxr.to_json().ok()?;
+                let back = catch(|| FXRates::from_json(&doc).ok())??;
+                match back.rate(&eur, &usd)? { Number::F64(v) => Some(v.to_bits()), Number::Dual(d) => Some(d.real().to_bits()), Number::Dual2(d) => Some(d.real().to_bits()) }
+            };
+            let mut obs = Vec::new();
+            let mut all_ok = true;
+            for x in [0.012750000000000001_f64, 0.1 + 0.2, 1.0 / 3.0, 2.2250738585072014e-308, 1.7976931348623157e300, 0.3 - 0.1, 1350.0 * 1.03, 7.5 * 1.04 / 110.0] {
+                let back = trip(x);
+                let same = back == Some(x.to_bits());
+                if !same { obs.push(format!("{:e} (bits {:#x}) loads as {}", x, x.to_bits(), match back { Some(b) => format!("{:e} (bits {:#x})", f64::from_bits(b), b), None => "an error".to_string() })); }
+                all_ok &= same;
+            }
+            // a denser sweep: positive finite doubles in [1e-300, 1e300] from a fixed linear congruential sequence
+            let mut st: u64 = 0x9E3779B97F4A7C15;
+            let (mut n, mut n_bad) = (0u32, 0u32);
+            let mut first_bad: Option<f64> = None;
+            while n < 20000 {
+                st = st.wrapping_mul(6364136223846793005).wrapping_add(1442695040888963407);
+                let x = f64::from_bits(st >> 1);
+                if !(x.is_finite() && x >= 1e-300 && x <= 1e300) { continue; }
+                n += 1;
+                if trip(x) != Some(x.to_bits()) { n_bad += 1; if first_bad.is_none() { first_bad = Some(x); } }
+            }
+            if n_bad > 0 { all_ok = false; obs.push(format!("{} of {} pseudo-random doubles in [1e-300, 1e300] do not survive, first {:e}", n_bad, n, first_bad.unwrap())); }
+            report("case", "d8", "FXRates([eurusd = x]).to_json() -> FXRates::from_json(..).rate(eur, usd) for doubles x needing all 17 significant digits", &if obs.is_empty() { "every quote came back bit for bit".to_string() } else { obs.join("; ") }, "every quote comes back bit for bit", all_ok);
+        }
         // calsweep <tables.json>: for every named calendar, the RUNTIME object returned by get_calendar_by_name must agree with the
         // tables extracted from the sources on every day 1970-01-01..2200-12-31 (Monday-Friday: is_holiday <=> day in table; every day: is_bus_day <=> weekday
         // not in mask and day not in table).  Validates the extraction used by C07 end to end: HashMap wiring, date parsing, Cal::new, week-mask
